@@ -110,6 +110,9 @@ func (m *pathParamMatcher) Matches(request *heimdall.Request, keys, values []str
 				return errorchain.NewWithMessage(ErrRequestPathMismatch,
 					"request path contains encoded slashes which are not allowed")
 			}
+
+			// as with the other settings, the expression is matched against the decoded value
+			value, _ = url.PathUnescape(value)
 		case config.EncodedSlashesOn:
 			value, _ = url.PathUnescape(value)
 		default:
